@@ -27,6 +27,43 @@ chk("C02", "model_checking",
     "constructor and operator form is executed on directed boundary families and judged by the specification at full size.",
     "Same binding caveat as C01; SHA-512 is java.security.MessageDigest.", "TLA+ spec + TLC exhaustive toy models + trace validation", "DESIGN.md 5/C02")
 
+chk("C03", "model_checking",
+    "TLC exhausts, on toy curves of order 40/88/104, that dalek's extended / completed / Niels formulas (EdwardsAlg) refine the affine group law (Edwards) for ALL pairs of "
+    "points of the full group in several projective representatives, all 256 encodings for decompression, and that the API state machine (Api.tla) preserves the "
+    "representation invariant along all histories to the explored depth. Conformance: class-directed pairs (P=Q, -P, P+T, small/mixed order), decompression families, "
+    "TLC-simulated histories replayed at full size and long mixed chains; compressed bytes and the four coordinates are judged by the specification's own register file.",
+    "For-all on toy parameters and for the specification; code bound on finite executions. pyed.py only constructs inputs.",
+    "TLA+ spec + TLC exhaustive toy models + spec->code history replay + trace validation", "DESIGN.md 5/C03")
+chk("C04", "model_checking",
+    "TLC checks every digit recoding on all 65 536 two-byte scalars (reconstruction, ranges, carries, kept counterexample above 2^(8LEN-1)) and every scalar-multiplication "
+    "algorithm (variable base, tables of every radix, double base, Straus ct/vartime, Pippenger w=6..8) against repeated addition for every point of the full toy group and every "
+    "scalar below 2^7. Conformance: digit arrays through the hook; every entry point with reduced and unreduced scalars, sizes around 190 (thorough 500/800), tables on/off, forced dispatch.",
+    "Same caveat; large multiscalar expectations are computed by the joint double-and-add (MSMJoint), shown equal to the definition on the toy group.",
+    "TLA+ spec + TLC exhaustive toy models + trace validation across builds and forced dispatch", "DESIGN.md 5/C04")
+chk("C06", "model_checking",
+    "TLC exhausts RFC 9496 decode/encode/equals/map (Ristretto.tla) on toy curves: exactly l' strings decode, re-encoding is the identity, encoding is constant on cosets P+E[4] under "
+    "every scaling and injective across cosets, the map lands in 2E for all 65 536 inputs, batched double-and-compress = encode(2P) incl. identity cosets. Conformance: every rejection "
+    "class, structured map inputs, histories with 4-torsion translates of the internal representative (hook), multiscalar wrappers.",
+    "Same caveat. The root of a*d-1 is the literal RFC 9496 fixes.", "TLA+ spec + TLC exhaustive toy models + trace validation", "DESIGN.md 5/C06")
+chk("C07", "model_checking",
+    "TLC exhausts all 256x256 (k,u) on toy curves: RFC 7748 ladder = dalek ladder = u-coordinate of the Edwards multiple, twist and small-order u included; the birational map with its "
+    "exceptional points; Elligator2 never produces a rejected u; DH agreement. Conformance: byte-level x25519, Montgomery ops, bit-string ladder (lengths 0..300), typed DH for the three "
+    "secret types, conversions, Ed25519->X25519 key conversion.",
+    "Same caveat.", "TLA+ spec + TLC exhaustive toy models + trace validation", "DESIGN.md 5/C07")
+chk("C08", "model_checking",
+    "Ed25519.tla transcribes RFC 8032 5.1 (SHA-512 uninterpreted, evaluated by MessageDigest); TLC checks the signing algebra over the toy group with an abstract hash. Conformance: seeds x "
+    "message lengths at block edges x contexts (0..255, refusal above), keypair import with matching/foreign/undecodable halves, every verification variant under right and wrong key/message/context; "
+    "RFC 8032 vectors reproduced by the specification (self-test).",
+    "SHA-512 trusted. Same binding caveat.", "TLA+ spec + TLC toy model + trace validation", "DESIGN.md 5/C08")
+chk("C09", "model_checking",
+    "TLC enumerates all toy key encodings x challenges x S bytes: accepted iff S canonical (legacy: top three bits) and R bytes equal the recomputed encoding; no second encoding; strict subset. "
+    "Conformance: adversarial triples (torsion A/R in every encoding, mixed-order pairs satisfying the cofactorless equation, S in [l,2^256), bit flips, repository validation vectors) on builds with and without legacy_compatibility.",
+    "Same caveat.", "TLA+ spec + TLC toy model + trace validation", "DESIGN.md 5/C09")
+chk("C13", "model_checking",
+    "TLC checks the batch equation over the toy group for all coefficient vectors (all valid => identity; a forged prime-order entry => identity only for z=0; kept counterexample on mixed order). "
+    "Conformance: batch sizes 0..95 (thorough 250/400), each corruption kind at first/middle/last position, permutations, duplicates, repetition, length mismatches, serial and vector copies.",
+    "Outside the precondition only determinism is required. merlin coefficients not modelled.", "TLA+ spec + TLC toy model + trace validation", "DESIGN.md 5/C13")
+
 NOT_YET = {}
 
 def main():
